@@ -112,6 +112,10 @@ MintAllowed ==
      \/ p.op \in {"EndCapture", "RenderInlineComponent", "RenderBodyComponent"}
      \/ p.op = "CallFunction" /\ p.a[1] \in SafeFunctions
      \/ p.op = "ApplyFilter" /\ p.a[1] \in SafeFilters
+     \* the two mark-preserving operations: indexing / slicing an already safe string
+     \/ LET st == Top.f.stack D == Len(st) IN
+        \/ p.op \in {"BinarySubscript", "BinarySubscriptOpt"} /\ D >= 2 /\ st[D - 1].v = V("str", TRUE, TRUE)
+        \/ p.op \in {"Slice", "SliceOpt"} /\ D >= 4 /\ st[D - 3].v = V("str", TRUE, TRUE)
 Mint ==
   /\ Ev.e = "mint" /\ l' = l + 1
   /\ IF MintAllowed THEN UNCHANGED bad ELSE Flag("MintRule")
